@@ -485,6 +485,40 @@ Proof.
     + specialize (IH (pl - 1) Hn). lia.
 Qed.
 
+(** ... and across lines: a position on an earlier line never maps after one on a later line *)
+Lemma col8_le_len8s l : forall k, col8 l k <= len8s l.
+Proof.
+  induction l as [|c l IH]; intros k; cbn [col8 len8s]; [lia|].
+  destruct (N.eqb k 0); [lia|]. specialize (IH (k - len16 c)). lia.
+Qed.
+
+Lemma len8s_content_le l : len8s (content l) <= len8s l.
+Proof.
+  induction l as [|c l IH]; cbn [content len8s]; [lia|].
+  destruct (is_cr c); cbn [len8s]; lia.
+Qed.
+
+Lemma spec_go_lines_mono ls : forall pl pl' pc pc', pl < pl' -> spec_go ls pl pc <= spec_go ls pl' pc'.
+Proof.
+  induction ls as [|l ls IH]; intros pl pl' pc pc' Hlt; cbn [spec_go]; [lia|].
+  destruct (N.eqb_spec pl' 0) as [E|Hn']; [lia|].
+  destruct (N.eqb_spec pl 0) as [E|Hn].
+  - pose proof (col8_le_len8s (content l) pc). pose proof (len8s_content_le l).
+    destruct ls; lia.
+  - destruct ls as [|l2 ls]; [lia|].
+    specialize (IH (pl - 1) (pl' - 1) pc pc'). lia.
+Qed.
+
+Definition pos_le (l c l' c' : N) : Prop := l < l' \/ (l = l' /\ c <= c').
+
+Theorem position_mono t l c l' c' :
+  pos_le l c l' c' -> position_to_utf8 t l c <= position_to_utf8 t l' c'.
+Proof.
+  intros [Hlt|[-> Hle]].
+  - rewrite !position_to_utf8_spec. unfold pos_spec. apply spec_go_lines_mono, Hlt.
+  - apply position_mono_in_line, Hle.
+Qed.
+
 (** * ranges: the client selects exactly the span's UTF-16 units *)
 
 Lemma utf16_app a b : utf16 (a ++ b) = utf16 a ++ utf16 b.
